@@ -106,6 +106,8 @@ def gen_rotation(rng, stream):
         A = rng.choice(ROT45)
         Rm = matmul(matmul(A, A), rng.choice(PERM_ROTATIONS))
         return [[x + 0.0 for x in row] for row in Rm]
+    if stream == "exact":
+        return [[x + 0.0 for x in row] for row in rng.choice(PERM_ROTATIONS)]
     if stream == "lattice":
         Rm = rng.choice(PERM_ROTATIONS)
         r = rng.random()
@@ -118,13 +120,13 @@ def gen_rotation(rng, stream):
 
 
 def gen_size(rng, stream, lo=1e-2, hi=1e2):
-    if stream in ("lattice", "composed"):
+    if stream in ("lattice", "composed", "exact"):
         return rng.choice([s for s in LATTICE if lo <= s <= hi])
     return 10 ** rng.uniform(math.log10(lo), math.log10(hi))
 
 
 def gen_translation(rng, stream):
-    if stream in ("lattice", "composed"):
+    if stream in ("lattice", "composed", "exact"):
         return [rng.choice([0.0, 0.0, 0.25, -0.5, 1.0, -2.0, 4.0]) for _ in range(3)]
     mag = 10 ** rng.uniform(-2, math.log10(570.0))
     return [rng.uniform(-1, 1) * mag for _ in range(3)]
@@ -136,7 +138,7 @@ def unit(v):
 
 
 def gen_cloud(rng, stream, n):
-    if stream in ("lattice", "composed"):
+    if stream in ("lattice", "composed", "exact"):
         pts = set()
         base = rng.choice(["cube", "octa", "grid"])
         if base == "cube":
@@ -189,7 +191,7 @@ def gen_shape(rng, kind, stream, size_lo=1e-2, size_hi=1e2):
     elif kind == "mesh":
         # vertices in the mesh frame (spread within the size domain), pose on top
         n = rng.choice([4, 5, 8, 12, 30])
-        if stream in ("lattice", "composed"):
+        if stream in ("lattice", "composed", "exact"):
             vs = gen_cloud(rng, "lattice", n)
         else:
             s = gen_size(rng, "random", max(size_lo, 1e-2), min(size_hi, 50.0))
@@ -240,6 +242,9 @@ def shape_axes(sh):
 
 
 SIGN_VALUES = [0.0, 1.0, -1.0, 1e-300, -1e-300, 1e-9, -1e-9]
+# powers of two: every product with a lattice coordinate is exact in binary64.  2^-50 and 2^-48 make
+# projection differences of lattice meshes straddle the hill-climbing threshold 10 * 2^-52
+POW2_VALUES = [0.0, 0.0, 1.0, -1.0, 2.0 ** -50, -(2.0 ** -50), 2.0 ** -48, -(2.0 ** -48), 2.0 ** -1000, 0.5, -2.0]
 
 
 def gen_direction(rng, sh, cls):
@@ -257,6 +262,17 @@ def gen_direction(rng, sh, cls):
             d = [rng.choice(SIGN_VALUES) for _ in range(3)]
             if any(x != 0.0 for x in d):
                 return d
+    if cls == "pow2":
+        while True:
+            d = [rng.choice(POW2_VALUES) for _ in range(3)]
+            if any(x != 0.0 for x in d):
+                return d
+    if cls == "cone_switch" and sh["kind"] == "cone":
+        # around the line r*|ld_xy| = h*ld_z where the answer switches between base rim and apex
+        phi = rng.uniform(0, 2 * math.pi)
+        f = rng.choice([0.9, 0.99, 1.01, 1.1, 1.0])
+        ld = [sh["h"] * math.cos(phi), sh["h"] * math.sin(phi), sh["r"] * f]
+        return matvec(sh["R"], ld)
     axes = shape_axes(sh)
     if not axes:
         return gen_direction(rng, sh, "axis")
@@ -688,3 +704,132 @@ def contain_class(sh, p, tau, faces=None):
                 inside = False
         return "in" if inside and all(v for _, _, v in faces) else "band"
     raise ValueError(k)
+
+
+# ------------------------------------------------------------------ exactly representable cases
+def is_lattice_number(x, lim=64.0):
+    """a multiple of 1/4 of magnitude <= lim: sums and products of a few of them are exact in binary64"""
+    return abs(x) <= lim and float(x * 4.0).is_integer()
+
+
+def is_pow2_or_zero(x):
+    if x == 0.0:
+        return True
+    m, _ = math.frexp(abs(x))
+    return m == 0.5
+
+
+def exact_pose(sh):
+    """the shape's pose is a signed permutation (or absent) with lattice translation: R^T d permutes d,
+    c + R k is computed without rounding for lattice k"""
+    if "R" in sh:
+        return is_signed_permutation(sh["R"]) and all(is_lattice_number(x) for x in sh["t"])
+    if sh["kind"] == "sphere":
+        return all(is_lattice_number(x) for x in sh["c"])
+    if sh["kind"] == "hull":
+        return True
+    if sh["kind"] == "disk":
+        n = sh["n"]
+        return sorted(abs(x) for x in n) == [0.0, 0.0, 1.0] and all(is_lattice_number(x) for x in sh["c"])
+    if sh["kind"] == "ellipse":
+        ok = all(sorted(abs(x) for x in a) == [0.0, 0.0, 1.0] for a in (sh["a0"], sh["a1"]))
+        return ok and all(is_lattice_number(x) for x in sh["c"])
+    return False
+
+
+def exact_direction(d):
+    """products with lattice numbers are exact and the 3-term sum does not depend on the order of
+    evaluation (nor on fused multiply-add): at most two non-zero components, each a power of two, or
+    all three of magnitude in {1/2, 1, 2}"""
+    if not all(is_pow2_or_zero(x) for x in d):
+        return False
+    nz = [x for x in d if x != 0.0]
+    return len(nz) <= 2 or all(abs(x) in (0.5, 1.0, 2.0) for x in nz)
+
+
+# ------------------------------------------------------------------ Coq certificates (Checker/ShapesCert.v)
+CERT_HEADER = """From Coq Require Import QArith List.
+From D3 Require Import Base.Vec Checker.Shapes Checker.ShapesCert.
+Import ListNotations.
+"""
+
+
+def to_spec(sh, margin=None):
+    """the collider specification format of harness/narrow.py (shape expressions and witnesses)"""
+    k = sh["kind"]
+
+    def pose():
+        Rm, t = sh["R"], sh["t"]
+        return [list(Rm[0]) + [t[0]], list(Rm[1]) + [t[1]], list(Rm[2]) + [t[2]], [0.0, 0.0, 0.0, 1.0]]
+    if k == "sphere":
+        spec = dict(kind=k, center=list(sh["c"]), radius=sh["r"])
+    elif k == "box":
+        spec = dict(kind=k, pose=pose(), size=list(sh["size"]))
+    elif k == "cylinder":
+        spec = dict(kind=k, pose=pose(), radius=sh["r"], length=sh["l"])
+    elif k in ("capsule", "cone"):
+        spec = dict(kind=k, pose=pose(), radius=sh["r"], height=sh["h"])
+    elif k == "ellipsoid":
+        spec = dict(kind=k, pose=pose(), radii=list(sh["radii"]))
+    elif k == "disk":
+        spec = dict(kind=k, center=list(sh["c"]), radius=sh["r"], normal=list(sh["n"]))
+    elif k == "ellipse":
+        spec = dict(kind=k, center=list(sh["c"]), axes=[list(sh["a0"]), list(sh["a1"])], radii=[sh["r0"], sh["r1"]])
+    elif k == "hull":
+        spec = dict(kind=k, vertices=[list(v) for v in sh["vs"]])
+    elif k == "mesh":
+        spec = dict(kind=k, pose=pose(), vertices=[list(v) for v in sh["vs"]])
+    else:
+        raise ValueError(k)
+    if margin:
+        spec["margin"] = float(margin)
+    return spec
+
+
+def qlit(x):
+    from .. import narrow
+    return narrow._q(x)
+
+
+def support_cert_expr(spec, s, d, tau):
+    """membership within tau (Euclidean) and  max over the set <= s.d + tau  (absolute, as the property)"""
+    from .. import narrow
+    return (f"support_cert {narrow.sh_expr(spec)} {narrow.wit_expr(spec, s)} {narrow.vq(s)} {narrow.vq(d)} "
+            f"{narrow._q(tau)} {narrow._q(tau)}")
+
+
+def member_tol_expr(spec, p, tau):
+    from .. import narrow
+    return f"in_shape_tol {narrow.sh_expr(spec)} {narrow.wit_expr(spec, p)} {narrow.vq(p)} {narrow._q(tau)}"
+
+
+def aabb_cert_expr(spec, lo, hi, tau):
+    from .. import narrow
+    ws = []
+    for k in range(3):
+        for sg in (-1.0, 1.0):
+            e = [0.0, 0.0, 0.0]
+            e[k] = sg
+            ws.append(narrow.wit_expr(spec, narrow.support_point(spec, e)))
+    wt = "(" + ", ".join(ws) + ")"
+    return f"aabb_cert {narrow.sh_expr(spec)} {wt} {narrow.vq(lo)} {narrow.vq(hi)} {narrow._q(tau)}"
+
+
+def outside_cert_expr(spec, p, n, g):
+    from .. import narrow
+    return f"outside_cert {narrow.sh_expr(spec)} {narrow.vq(p)} {narrow.vq(n)} {narrow._q(g)}"
+
+
+def coq_bools(pid, exprs, tag="cert"):
+    """evaluate checker expressions inside coqc (vm_compute); list of True / False"""
+    if not exprs:
+        return []
+    outs = cm.coq_eval_lines(pid, CERT_HEADER, exprs, tag=tag, per_file=max(4, len(exprs) // (cm.NCPU * 2) + 1),
+                             timeout=1500)
+    res = []
+    for o in outs:
+        o = o.strip()
+        if o not in ("true", "false"):
+            raise RuntimeError(f"unexpected checker output {o[:200]}")
+        res.append(o == "true")
+    return res
